@@ -297,4 +297,517 @@ theorem opPollSpawn_kill (a : Actor) (supOk : Bool) (ha : a.armed = true) (hs : 
     · exact noise_np (failSpawn_noise _ _ _ he)
   · exact ⟨fun hp => by simp_all, fun _ => rfl, by simp⟩
 
+
+/-! ### progress of a pending stop: the rank -/
+
+/-- How many *effective* polls the actor is from `Stopped` once a stop is pending:
+`cell 5 > pre 4 > ready 3 > post_start / idle / handler 2 > post_stop 1 > done 0`. -/
+def rank (a : Actor) : Nat :=
+  match a.phase with
+  | .cell => 5 | .pre => 4 | .ready => 3
+  | .postStart | .idle | .inMsg | .inSup => 2
+  | .postStop _ => 1
+  | .fresh | .done => 0
+
+/-- A stop is in the stop port (accepted, not yet picked by the loop) or `post_stop` is already open. -/
+def StopPend (a : Actor) : Prop := a.stopVal.isSome = true ∨ ∃ r, a.phase = .postStop r
+
+/-- The script has supplied a segment that makes the open callback return. -/
+def segReturns (a : Actor) : Bool :=
+  match a.seg with
+  | some s => decide (s.term ≠ .tick)
+  | none => false
+
+/-- A poll of the actor's task that does not find the open callback still suspended. -/
+def effPoll (a : Actor) : AOp → Bool
+  | .poll =>
+    match a.phase with
+    | .ready | .idle => true
+    | .postStart | .inMsg | .inSup | .postStop _ => a.sigVal || segReturns a
+    | _ => false
+  | .pollSpawn _ =>
+    match a.phase with
+    | .cell => true
+    | .pre => a.sigVal || segReturns a
+    | _ => false
+  | _ => false
+
+/-- One step `a ⟶ x`: the actor ended, or it is alive and a pending stop stays pending with a rank that
+did not grow (and fell, if `strict`). -/
+def Prog (a x : Actor) (strict : Bool) : Prop :=
+  Dead x ∨ (Alive x ∧ (StopPend a → StopPend x ∧ rank x ≤ rank a ∧ (strict = true → rank x < rank a)))
+
+theorem rank_postStop {x : Actor} {r : Reason} (h : x.phase = .postStop r) : rank x = 1 := by simp [rank, h]
+
+theorem Prog.of_keep {a x : Actor} (h : Alive a) (k : Keep a x) : Prog a x false := by
+  right
+  refine ⟨⟨by rw [k.phase]; exact h.1, by rw [k.phase]; exact h.2.1, by rw [k.armed]; exact h.2.2⟩, fun hs => ?_⟩
+  refine ⟨?_, by simp [rank, k.phase], by simp⟩
+  rcases hs with hs | ⟨r, hr⟩
+  · exact Or.inl (k.stop hs)
+  · exact Or.inr ⟨r, by rw [k.phase]; exact hr⟩
+
+theorem Prog.same {a : Actor} (h : Alive a) : Prog a a false := Prog.of_keep h (Keep.rfl' a)
+
+theorem runSeg_res (a : Actor) (cb : Cb) (s : Seg) (k : Actor → Res → M) :
+    (s.term = .tick ∧ Keep a (runSeg a cb s k).1) ∨
+    (s.term ≠ .tick ∧ ∃ a', Keep a a' ∧ (runSeg a cb s k).1 = (k a' s.term.res).1) := by
+  rw [runSeg_fst]
+  by_cases ht : s.term = .tick
+  · left
+    simp only [ht, ite_true, true_and]
+    exact ⟨(runFxs_keep s.fx a).phase, (runFxs_keep s.fx a).armed, (runFxs_keep s.fx a).stop⟩
+  · right
+    simp only [ht, ite_false]
+    exact ⟨ht, _, runFxs_keep s.fx a, rfl⟩
+
+theorem pollOpen_prog (a : Actor) (cb : Cb) (h : Alive a)
+    (hph : a.phase = .postStart ∨ a.phase = .inMsg ∨ a.phase = .inSup ∨ ∃ r, a.phase = .postStop r) :
+    Prog a (pollOpen a cb).1 (a.sigVal || segReturns a) := by
+  cases hs : a.sigVal with
+  | true => exact Or.inl (pollOpen_kill a cb h.2.2 hs).1
+  | false =>
+    unfold pollOpen
+    simp only [hs, Bool.false_eq_true, ite_false, Bool.false_or]
+    cases hseg : a.seg with
+    | none =>
+      simp only [segReturns, hseg]
+      exact Prog.of_keep h ⟨rfl, rfl, fun x => x⟩
+    | some s =>
+      simp only [segReturns, hseg]
+      have key : ∀ b : Actor, Keep a b → Prog a (runSeg b cb s afterExit).1 (decide (s.term ≠ .tick)) := by
+        intro b kb
+        rcases runSeg_res b cb s afterExit with ⟨ht, k⟩ | ⟨ht, a', k, e⟩
+        · simp only [ht, ne_eq, not_true_eq_false, decide_false]
+          exact Prog.of_keep h (kb.trans k)
+        · rw [e]
+          have k := kb.trans k
+          have ha' : a'.armed = true := by rw [k.armed]; exact h.2.2
+          rcases afterExit_AD a' s.term.res ha' with hd | ⟨h1, h2, h3, h4⟩
+          · exact Or.inl hd
+          · right
+            have hal : Alive (afterExit a' s.term.res).1 := by
+              refine ⟨?_, ?_, h1⟩ <;> (intro hc; rw [hc] at h2; simp [Phase.inLoop] at h2)
+            refine ⟨hal, fun hsp => ?_⟩
+            have hp' : a'.phase = a.phase := k.phase
+            rcases hsp with hsp | ⟨r, hr⟩
+            · have : a'.stopVal.isSome = true := k.stop hsp
+              obtain ⟨r', hr'⟩ := Option.isSome_iff_exists.mp this
+              have hx := h4 r' hr'
+              have e1 := rank_postStop hx
+              have e3 : (∀ r, a.phase ≠ .postStop r) → rank a = 2 := by
+                intro hn
+                rcases hph with hq | hq | hq | ⟨r, hq⟩ <;> first | exact absurd hq (hn r) | simp [rank, hq]
+              have e4 := e3 (fun r hr => h3 r (hp'.trans hr))
+              exact ⟨Or.inr ⟨r', hx⟩, by omega, fun _ => by omega⟩
+            · exact absurd (hp'.trans hr) (h3 r)
+      exact key _ ⟨rfl, rfl, fun x => x⟩
+
+theorem opPoll_prog (a : Actor) (h : Alive a) : Prog a (opPoll a).1 (effPoll a .poll) := by
+  unfold opPoll
+  split
+  · rename_i hp
+    simp only []
+    split
+    · exact Or.inl (killedOutsideLoop_dead _ (by simpa using h.2.2))
+    · right
+      refine ⟨⟨by simp, by simp, by simpa using h.2.2⟩, fun hs => ?_⟩
+      rcases hs with hs | ⟨r, hr⟩
+      · exact ⟨Or.inl (by simpa using hs), by simp [rank, hp], fun _ => by simp [rank, hp]⟩
+      · simp [hp] at hr
+  · rename_i hp
+    rcases listen_AD { a with woken := false } (by simpa using h.2.2) with hd | ⟨h1, h2, _, h4⟩
+    · exact Or.inl hd
+    · right
+      have hal : Alive (listen { a with woken := false }).1 := by
+        refine ⟨?_, ?_, h1⟩ <;> (intro hc; rw [hc] at h2; simp [Phase.inLoop] at h2)
+      refine ⟨hal, fun hsp => ?_⟩
+      rcases hsp with hsp | ⟨r, hr⟩
+      · obtain ⟨r', hr'⟩ := Option.isSome_iff_exists.mp hsp
+        have hx := h4 r' (by simpa using hr')
+        have e1 := rank_postStop hx
+        have e2 : rank a = 2 := by simp [rank, hp]
+        exact ⟨Or.inr ⟨r', hx⟩, by omega, fun _ => by omega⟩
+      · simp [hp] at hr
+  · rename_i hp
+    have := pollOpen_prog a .postStart h (Or.inl hp)
+    simpa [effPoll, hp] using this
+  · rename_i hp
+    have := pollOpen_prog a .handle h (Or.inr (Or.inl hp))
+    simpa [effPoll, hp] using this
+  · rename_i hp
+    have := pollOpen_prog a .sup h (Or.inr (Or.inr (Or.inl hp)))
+    simpa [effPoll, hp] using this
+  · rename_i r hp
+    have := pollOpen_prog a .postStop h (Or.inr (Or.inr (Or.inr ⟨r, hp⟩)))
+    simpa [effPoll, hp] using this
+  · rename_i h1 h2 h3 h4 h5 h6
+    have : effPoll a .poll = false := by
+      cases hp : a.phase <;> simp_all [effPoll]
+    rw [this]
+    exact Prog.same h
+
+
+theorem beginPre_AD (b : Actor) (hb : b.armed = true) :
+    Dead (beginPre b).1 ∨ ((beginPre b).1.phase = .pre ∧ (beginPre b).1.armed = true ∧
+      (beginPre b).1.stopVal = b.stopVal) := by
+  unfold beginPre
+  split
+  · simp only [handleSignal, andThen_fst]
+    exact Or.inl (failSpawn_dead _ _ (by simpa using hb))
+  · exact Or.inr ⟨rfl, hb, rfl⟩
+
+theorem startInstant_AD (a : Actor) (supOk : Bool) (ha : a.armed = true) :
+    Dead (startInstant a supOk).1 ∨ ((startInstant a supOk).1.phase = .pre ∧ (startInstant a supOk).1.armed = true ∧
+      (startInstant a supOk).1.stopVal = a.stopVal) := by
+  unfold startInstant
+  split
+  · exact Or.inl (failSpawn_dead _ _ ha)
+  · simp only []
+    split
+    · split
+      · split
+        · exact Or.inl (failSpawn_dead _ _ (by simpa using ha))
+        · simp only [andThen_fst, doLink_fst]
+          exact beginPre_AD _ (by simpa using ha)
+      · exact beginPre_AD _ (by simpa using ha)
+    · exact beginPre_AD _ (by simpa using ha)
+
+theorem opPollSpawn_prog (a : Actor) (supOk : Bool) (h : Alive a) :
+    Prog a (opPollSpawn a supOk).1 (effPoll a (.pollSpawn supOk)) := by
+  unfold opPollSpawn
+  split
+  · rename_i hp
+    rcases startInstant_AD a supOk h.2.2 with hd | ⟨h1, h2, h3⟩
+    · exact Or.inl hd
+    · right
+      refine ⟨⟨by simp [h1], by simp [h1], h2⟩, fun hsp => ?_⟩
+      have e1 : rank (startInstant a supOk).1 = 4 := by simp [rank, h1]
+      have e2 : rank a = 5 := by simp [rank, hp]
+      refine ⟨?_, by omega, fun _ => by omega⟩
+      rcases hsp with hsp | ⟨r, hr⟩
+      · exact Or.inl (by rw [h3]; exact hsp)
+      · simp [hp] at hr
+  · rename_i hp
+    split
+    · simp only [say, handleSignal, andThen_fst]
+      exact Or.inl (failSpawn_dead _ _ (by simpa using h.2.2))
+    · rename_i hs
+      have hs : a.sigVal = false := by simpa using hs
+      cases hseg : a.seg with
+      | none =>
+        have : effPoll a (.pollSpawn supOk) = false := by simp [effPoll, hp, hs, segReturns, hseg]
+        rw [this]; exact Prog.same h
+      | some s =>
+        simp only []
+        have key : ∀ b : Actor, Keep a b →
+            Prog a (runSeg b .preStart s (fun a r => afterPre a supOk r)).1 (decide (s.term ≠ .tick)) := by
+          intro b kb
+          rcases runSeg_res b .preStart s (fun a r => afterPre a supOk r) with ⟨ht, k⟩ | ⟨ht, a', k, e⟩
+          · simp only [ht, ne_eq, not_true_eq_false, decide_false]
+            exact Prog.of_keep h (kb.trans k)
+          · rw [e]
+            have k := kb.trans k
+            have ha' : a'.armed = true := by rw [k.armed]; exact h.2.2
+            rcases afterPre_AD a' supOk s.term.res ha' with hd | ⟨h1, h2, h3, _⟩
+            · exact Or.inl hd
+            · right
+              refine ⟨⟨by simp [h1], by simp [h1], h2⟩, fun hsp => ?_⟩
+              have e1 : rank (afterPre a' supOk s.term.res).1 = 3 := by simp [rank, h1]
+              have e2 : rank a = 4 := by simp [rank, hp]
+              refine ⟨?_, by omega, fun _ => by omega⟩
+              rcases hsp with hsp | ⟨r, hr⟩
+              · exact Or.inl (by rw [h3]; exact k.stop hsp)
+              · simp [hp] at hr
+        have : effPoll a (.pollSpawn supOk) = decide (s.term ≠ .tick) := by
+          simp [effPoll, hp, hs, segReturns, hseg]
+        rw [this]
+        exact key _ ⟨rfl, rfl, fun x => x⟩
+  · rename_i h1 h2
+    have : effPoll a (.pollSpawn supOk) = false := by
+      cases hp : a.phase <;> simp_all [effPoll]
+    rw [this]
+    exact Prog.same h
+
+theorem pollMark_fst (a : Actor) (x : M) : (pollMark a x).1 = x.1 := by
+  unfold pollMark; split <;> rfl
+
+theorem pollMark_np (a : Actor) (x : M) (h : ∀ e ∈ evs x.2, C03.isProgress e = false) :
+    ∀ e ∈ evs (pollMark a x).2, C03.isProgress e = false := by
+  unfold pollMark
+  split
+  · intro e he
+    simp only [evs_append, List.mem_append] at he
+    rcases he with he | he
+    · exact h e he
+    · simp at he; subst he; rfl
+  · exact h
+
+/-- **Every op**, from an alive actor: it ends (`Dead`) or stays alive; a pending stop stays pending, its
+rank never grows, and an effective poll makes it fall. -/
+theorem step_prog (a : Actor) (op : AOp) (h : Alive a) : Prog a (a.stepCore op).1 (effPoll a op) := by
+  cases op with
+  | spawn sup name nameFree isLocal supOk =>
+    simp only [Actor.stepCore, opSpawn]
+    split
+    · rename_i hp; exact absurd hp h.1
+    · exact Prog.same h
+  | spawnInstant sup name nameFree isLocal =>
+    simp only [Actor.stepCore, opSpawnInstant]
+    split
+    · rename_i hp; exact absurd hp h.1
+    · exact Prog.same h
+  | pollSpawn supOk => exact opPollSpawn_prog a supOk h
+  | dropSpawn =>
+    simp only [Actor.stepCore, effPoll]
+    by_cases hp : a.phase = .cell ∨ a.phase = .pre
+    · exact Or.inl (opDropSpawn_dead a h.2.2 hp)
+    · have : (opDropSpawn a).1 = a := by
+        unfold opDropSpawn
+        split <;> simp_all
+      rw [this]; exact Prog.same h
+  | poll =>
+    simp only [Actor.stepCore, pollMark_fst]
+    exact opPoll_prog a h
+  | abort =>
+    simp only [Actor.stepCore, effPoll]
+    cases ht : a.phase.isTask with
+    | true => exact Or.inl (opAbort_dead a h.2.2 ht)
+    | false =>
+      have : (opAbort a).1 = a := by simp [opAbort, ht]
+      rw [this]; exact Prog.same h
+  | resume s =>
+    simp only [Actor.stepCore, effPoll, opResume]
+    split
+    · exact Prog.same h
+    · split
+      · exact Prog.same h
+      · exact Prog.of_keep h ⟨rfl, rfl, fun x => x⟩
+  | _ =>
+    simp only [Actor.stepCore, effPoll, h.1, ite_false]
+    obtain ⟨h1, h2, _, _, h5, _⟩ := envOp_keep a _
+    exact Prog.of_keep h ⟨h1, h2, h5⟩
+
+
+/-! ### a pending kill, op by op -/
+
+/-- A poll of the actor's task: of the spawn future / start task while it exists (`cell`, `pre`), of the
+loop task afterwards. -/
+def taskPoll (a : Actor) : AOp → Bool
+  | .poll => a.phase.isTask
+  | .pollSpawn _ => decide (a.phase = .cell ∨ a.phase = .pre)
+  | _ => false
+
+theorem kill_step (a : Actor) (op : AOp) (h : Alive a) (hs : a.sigVal = true) :
+    (Dead (a.stepCore op).1 ∨ (Alive (a.stepCore op).1 ∧ (a.stepCore op).1.sigVal = true)) ∧
+    (taskPoll a op = true → Dead (a.stepCore op).1) ∧
+    (∀ e ∈ evs (a.stepCore op).2, C03.isProgress e = false) := by
+  have same : ∀ o : List Out, (∀ e ∈ evs o, C03.isProgress e = false) →
+      (Dead a ∨ (Alive a ∧ a.sigVal = true)) ∧ (false = true → Dead a) ∧
+      (∀ e ∈ evs o, C03.isProgress e = false) := fun o ho => ⟨Or.inr ⟨h, hs⟩, by simp, ho⟩
+  cases op with
+  | spawn sup name nameFree isLocal supOk =>
+    simp only [Actor.stepCore, opSpawn, taskPoll]
+    split
+    · rename_i hp; exact absurd hp h.1
+    · exact same _ (by simp)
+  | spawnInstant sup name nameFree isLocal =>
+    simp only [Actor.stepCore, opSpawnInstant, taskPoll]
+    split
+    · rename_i hp; exact absurd hp h.1
+    · exact same _ (by simp)
+  | pollSpawn supOk =>
+    simp only [Actor.stepCore, taskPoll]
+    obtain ⟨h1, h2, h3⟩ := opPollSpawn_kill a supOk h.2.2 hs
+    refine ⟨?_, fun ht => h1 (by simpa using ht), h3⟩
+    by_cases hp : a.phase = .cell ∨ a.phase = .pre
+    · exact Or.inl (h1 hp)
+    · rw [h2 hp]; exact Or.inr ⟨h, hs⟩
+  | dropSpawn =>
+    simp only [Actor.stepCore, taskPoll]
+    refine ⟨?_, by simp, opDropSpawn_np a⟩
+    by_cases hp : a.phase = .cell ∨ a.phase = .pre
+    · exact Or.inl (opDropSpawn_dead a h.2.2 hp)
+    · have : (opDropSpawn a).1 = a := by
+        unfold opDropSpawn
+        split <;> simp_all
+      rw [this]; exact Or.inr ⟨h, hs⟩
+  | poll =>
+    simp only [Actor.stepCore, taskPoll, pollMark_fst]
+    obtain ⟨h1, h2, h3⟩ := opPoll_kill a h.2.2 hs
+    refine ⟨?_, h1, pollMark_np a _ h3⟩
+    cases ht : a.phase.isTask with
+    | true => exact Or.inl (h1 ht)
+    | false => rw [h2 ht]; exact Or.inr ⟨h, hs⟩
+  | abort =>
+    simp only [Actor.stepCore, taskPoll]
+    refine ⟨?_, by simp, opAbort_np a⟩
+    cases ht : a.phase.isTask with
+    | true => exact Or.inl (opAbort_dead a h.2.2 ht)
+    | false =>
+      have : (opAbort a).1 = a := by simp [opAbort, ht]
+      rw [this]; exact Or.inr ⟨h, hs⟩
+  | resume s =>
+    simp only [Actor.stepCore, taskPoll, opResume]
+    split
+    · exact same _ (by simp)
+    · split
+      · exact same _ (by simp)
+      · exact ⟨Or.inr ⟨⟨h.1, h.2.1, h.2.2⟩, hs⟩, by simp, by simp⟩
+  | _ =>
+    simp only [Actor.stepCore, taskPoll, h.1, ite_false]
+    obtain ⟨h1, h2, _, h4, _, h6⟩ := envOp_keep a _
+    exact ⟨Or.inr ⟨⟨by rw [h1]; exact h.1, by rw [h1]; exact h.2.1, by rw [h2]; exact h.2.2⟩, h4 hs⟩, by simp, h6⟩
+
+/-! ### the other two cases of `Reach` -/
+
+theorem dead_step (a : Actor) (op : AOp) (h : Dead a) :
+    Dead (a.stepCore op).1 ∧ ∀ e ∈ evs (a.stepCore op).2, C03.isProgress e = false := by
+  have hp := h.1
+  cases op with
+  | spawn sup name nameFree isLocal supOk => simp [Actor.stepCore, opSpawn, hp, h]
+  | spawnInstant sup name nameFree isLocal => simp [Actor.stepCore, opSpawnInstant, hp, h]
+  | pollSpawn supOk => simp [Actor.stepCore, opPollSpawn, hp, h]
+  | dropSpawn => simp [Actor.stepCore, opDropSpawn, hp, h]
+  | poll => simp [Actor.stepCore, opPoll, pollMark, Phase.isTask, hp, h]
+  | abort => simp [Actor.stepCore, opAbort, Phase.isTask, hp, h]
+  | resume s => simp [Actor.stepCore, opResume, Phase.openCb, hp, h]
+  | _ =>
+    simp only [Actor.stepCore, hp, reduceCtorEq, ite_false]
+    exact ⟨envOp_dead a _ h, (envOp_keep a _).2.2.2.2.2⟩
+
+theorem fresh_step (a : Actor) (op : AOp) (h : Fresh a) : Fresh (a.stepCore op).1 ∨ Alive (a.stepCore op).1 := by
+  obtain ⟨hp, h1, h2⟩ := h
+  cases op with
+  | spawn sup name nameFree isLocal supOk =>
+    simp only [Actor.stepCore, opSpawn, hp]
+    (repeat' split) <;> simp_all [Fresh, Alive]
+  | spawnInstant sup name nameFree isLocal =>
+    simp only [Actor.stepCore, opSpawnInstant, hp]
+    (repeat' split) <;> simp_all [Fresh, Alive]
+  | pollSpawn supOk => simp [Actor.stepCore, opPollSpawn, hp, Fresh, h1, h2]
+  | dropSpawn => simp [Actor.stepCore, opDropSpawn, hp, Fresh, h1, h2]
+  | poll => simp [Actor.stepCore, opPoll, pollMark, Phase.isTask, hp, Fresh, h1, h2]
+  | abort => simp [Actor.stepCore, opAbort, Phase.isTask, hp, Fresh, h1, h2]
+  | resume s => simp [Actor.stepCore, opResume, Phase.openCb, hp, Fresh, h1, h2]
+  | _ => simp [Actor.stepCore, hp, Fresh, h1, h2]
+
+theorem reach_step (a : Actor) (op : AOp) (h : Reach a) : Reach (a.step op).1 := by
+  show Reach (a.stepCore op).1
+  rcases h with h | h | h
+  · rcases fresh_step a op h with h' | h'
+    · exact Or.inl h'
+    · exact Or.inr (Or.inl h')
+  · rcases step_prog a op h with h' | ⟨h', _⟩
+    · exact Or.inr (Or.inr h')
+    · exact Or.inr (Or.inl h')
+  · exact Or.inr (Or.inr (dead_step a op h).1)
+
+theorem reach_init (id : Nat) : Reach (Actor.init id) := Or.inl ⟨rfl, rfl, rfl⟩
+
+theorem reach_run (ops : List AOp) (a : Actor) (h : Reach a) : Reach (a.run ops).1 := by
+  induction ops generalizing a with
+  | nil => exact h
+  | cons op ops ih => exact ih _ (reach_step a op h)
+
+/-- A value in the signal / stop port means the cell exists and is alive (guard armed). -/
+theorem Reach.alive_of_sig {a : Actor} (h : Reach a) (hs : a.sigVal = true) : Alive a := by
+  rcases h with h | h | h
+  · rw [h.2.1] at hs; cases hs
+  · exact h
+  · rw [h.2.2.2.1] at hs; cases hs
+
+theorem Reach.alive_of_stop {a : Actor} (h : Reach a) (hs : a.stopVal.isSome = true) : Alive a := by
+  rcases h with h | h | h
+  · rw [h.2.2] at hs; cases hs
+  · exact h
+  · rw [h.2.2.2.2] at hs; cases hs
+
+
+/-! ### runs -/
+
+theorem step_np (a : Actor) (op : AOp) (h : ∀ e ∈ evs (a.stepCore op).2, C03.isProgress e = false) :
+    ∀ e ∈ evs (a.step op).2, C03.isProgress e = false := by
+  intro e he
+  rw [step_eq] at he
+  simp only [evs_append, List.mem_append] at he
+  rcases he with (he | he) | he
+  · exact h e he
+  · unfold supTail at he; split at he <;> simp at he; subst he; rfl
+  · unfold snapTail at he; split at he <;> simp at he; subst he; rfl
+
+/-- Polls of the actor's task along a run. -/
+def pollCount (a : Actor) : List AOp → Nat
+  | [] => 0
+  | op :: ops => (if taskPoll a op then 1 else 0) + pollCount (a.step op).1 ops
+
+/-- Effective polls of the actor's task along a run. -/
+def effCount (a : Actor) : List AOp → Nat
+  | [] => 0
+  | op :: ops => (if effPoll a op then 1 else 0) + effCount (a.step op).1 ops
+
+theorem dead_run (ops : List AOp) (a : Actor) (h : Dead a) :
+    Dead (a.run ops).1 ∧ ∀ e ∈ (a.run ops).2, C03.isProgress e = false := by
+  induction ops generalizing a with
+  | nil => exact ⟨h, by simp [Actor.run]⟩
+  | cons op ops ih =>
+    obtain ⟨h1, h2⟩ := dead_step a op h
+    obtain ⟨h3, h4⟩ := ih (a.step op).1 h1
+    refine ⟨h3, fun e he => ?_⟩
+    simp only [Actor.run, List.mem_append] at he
+    rcases he with he | he
+    · exact step_np a op h2 e he
+    · exact h4 e he
+
+theorem kill_run (ops : List AOp) (a : Actor) (h : Alive a) (hs : a.sigVal = true) :
+    (Dead (a.run ops).1 ∨ (Alive (a.run ops).1 ∧ (a.run ops).1.sigVal = true)) ∧
+    (1 ≤ pollCount a ops → Dead (a.run ops).1) ∧
+    ∀ e ∈ (a.run ops).2, C03.isProgress e = false := by
+  induction ops generalizing a with
+  | nil => exact ⟨Or.inr ⟨h, hs⟩, by simp [pollCount], by simp [Actor.run]⟩
+  | cons op ops ih =>
+    obtain ⟨h1, h2, h3⟩ := kill_step a op h hs
+    have hev : ∀ (t : List Ev), (∀ e ∈ t, C03.isProgress e = false) →
+        ∀ e ∈ evs (a.step op).2 ++ t, C03.isProgress e = false := by
+      intro t ht e he
+      rcases List.mem_append.mp he with he | he
+      · exact step_np a op h3 e he
+      · exact ht e he
+    rcases h1 with hd | ⟨hal, hsig⟩
+    · obtain ⟨h4, h5⟩ := dead_run ops (a.step op).1 hd
+      exact ⟨Or.inl h4, fun _ => h4, hev _ h5⟩
+    · obtain ⟨i1, i2, i3⟩ := ih (a.step op).1 hal hsig
+      refine ⟨i1, fun hc => ?_, hev _ i3⟩
+      cases htp : taskPoll a op with
+      | true => exact (dead_run ops _ (h2 htp)).1
+      | false =>
+        simp only [pollCount, htp, Bool.false_eq_true, ite_false, Nat.zero_add] at hc
+        exact i2 hc
+
+theorem rank_pos {a : Actor} (h : Alive a) : 1 ≤ rank a := by
+  obtain ⟨h1, h2, _⟩ := h
+  cases hp : a.phase <;> simp_all [rank]
+
+theorem rank_le (a : Actor) : rank a ≤ 5 := by
+  cases hp : a.phase <;> simp [rank, hp]
+
+theorem stop_run (ops : List AOp) (a : Actor) (h : Alive a) (hs : StopPend a) :
+    Dead (a.run ops).1 ∨
+    (Alive (a.run ops).1 ∧ StopPend (a.run ops).1 ∧ rank (a.run ops).1 + effCount a ops ≤ rank a) := by
+  induction ops generalizing a with
+  | nil => exact Or.inr ⟨h, hs, by simp [effCount, Actor.run]⟩
+  | cons op ops ih =>
+    rcases step_prog a op h with hd | ⟨hal, hp⟩
+    · exact Or.inl (dead_run ops _ hd).1
+    · obtain ⟨p1, p2, p3⟩ := hp hs
+      rcases ih (a.step op).1 hal p1 with hd | ⟨i1, i2, i3⟩
+      · exact Or.inl hd
+      · refine Or.inr ⟨i1, i2, ?_⟩
+        have e0 : (a.step op).1 = (a.stepCore op).1 := rfl
+        simp only [effCount, Actor.run]
+        rw [e0] at i3 ⊢
+        cases he : effPoll a op with
+        | true => have := p3 he; simp only [ite_true]; omega
+        | false => simp only [Bool.false_eq_true, ite_false]; omega
+
 end Life.Liveness
